@@ -564,7 +564,12 @@ func Run(r *evid.Run) {
 	r.Check = "c17"
 	r.Rule("tokens: for each token configuration {maintenance only, tables only, both, none} the real `regatta leader` and `regatta follower` binaries (built from the working tree) are started on unix sockets; every method of Tables (Create, Delete, List) and Maintenance (Backup stream, Restore stream, Reset) plus KV.Range and Cluster.Status as controls is called on both nodes with 14 authorization variants (absent, empty, right token under 3 scheme spellings, prefix, suffix, case-changed, trailing/leading space, Basic scheme, scheme only, token only, the other service's token): a configured service answers Unauthenticated to everything but the exact token and nothing changes; the right token is never Unauthenticated; unconfigured and other services are unaffected. TLS: real security.TLSInfo.ServerConfig() handshakes over in-memory pipes for 14 client certificates (no certificate, right/wrong CA, self-signed, CN variants, SAN variants, IP SAN) x {TrustedCAFile} x {ClientCertAuth} x {no restriction, AllowedCN, AllowedHostname, allowed IP, both (must be refused at configuration time)}; reference for hostname validity is x509's VerifyHostname. Non-trivial: all; distinct = distinct (case, outcome)")
 	bin := filepath.Join(evid.VerifDir, ".bin", "regatta-c17")
-	build := exec.Command("go1.26.8", "build", "-o", bin, ".")
+	args := []string{"build"}
+	if ov := os.Getenv("VERIF_BUILD_OVERLAY"); ov != "" {
+		args = append(args, "-overlay", ov) // the change under test (if any) applies to the binary too
+	}
+	args = append(args, "-o", bin, ".")
+	build := exec.Command("go1.26.8", args...)
 	build.Dir = "/repo"
 	build.Env = append(os.Environ(), "GOFLAGS=-mod=mod", "GOPROXY=off", "GOSUMDB=off", "GOTOOLCHAIN=local")
 	if out, err := build.CombinedOutput(); err != nil {
